@@ -25,7 +25,9 @@ func c10TS(run *Run, s *Session) (string, []*CaseResult) {
 	if _, ok := NodeUsable(); !ok {
 		return "node (>= 22.6) not available: TS error mapping is covered by the model and its theorems only", nil
 	}
-	src := tsServerFile(GenAll(run.BinDir, ErrorCatalogueTS()))
+	// (since cbe68e9 the module of the full catalogue loads: GET routes with path variables and query
+	// parameters no longer declare `const url` twice)
+	src := tsServerFile(s.Gens[0])
 	if src == "" {
 		return "protoc-gen-ts-server produced no server module for the error catalogue", nil
 	}
